@@ -1,7 +1,7 @@
 /-
 C16 — Each assigned beacon duty is dispatched exactly once, at its slot.
 Property theorems only.  Model: Ssv/Model/Duties.lean (attester / proposer / sync-committee handler and duty store,
-the code as it is after fix 1e0cc1057; the handlers before the fix are kept as `stepOld`/`runOld`); the four clauses as
+the code as it is after fixes 1e0cc1057 and f167f5eb9; the handlers before the fix are kept as `stepOld`/`runOld`); the four clauses as
 checks over the output atoms of a run: Ssv/Proofs/DutiesSpec.lean; helper lemmas and the inductive invariants:
 Ssv/Proofs/Duties*.lean.
 
@@ -52,8 +52,8 @@ theorem C16_tie_handler_arithmetic :
        "u<-", "+", "%", "32", "1", "+", "1", "+", "1", "&&", "==", "+", "1", "u<-", "+", "%", "32", "1", "+", "1", "&&",
        "==", "+", "1"] ∧
     noStr Gen.lits_prop_HandleDuties =
-      ["u<-", "u<-", "+", "%", "32", "1", "+", "1", "*", "100", "==", "%", "-", "1", "-", "1", "u<-", "+", "%", "32",
-       "1", "u<-", "+", "%", "32", "1"] ∧
+      ["u<-", "u<-", "+", "%", "32", "1", "+", "1", "*", "100", "u!", "==", "%", "-", "1", "-", "1", "u<-", "+", "%",
+       "32", "1", "u<-", "+", "%", "32", "1"] ∧
     noStr Gen.lits_sync_HandleDuties =
       ["u<-", "u<-", "+", "%", "32", "1", "&&", "||", "u!", "!=", "+", "1", "*", "100", "&&", "==", "%", "-", "/", "2",
        "2", "==", "%", "-", "==", "-", "1", "u<-", "+", "%", "32", "1", "&&", "+", "1", "&&", "==", "+", "1", "u<-", "+",
@@ -65,6 +65,13 @@ theorem C16_tie_handler_arithmetic :
 theorem C16_tie_fix_blocks :
     Gen.has_att_HandleDuties = [true, true, true, true, true] ∧
     Gen.has_sync_HandleDuties = [true, true, true, true, true] := by decide
+
+/-- proposer ticker branch after fix f167f5eb9: `h.fetchFirst = !h.processFetching(ctx, currentEpoch, slot)` is present,
+    the unconditional `h.fetchFirst = false` is GONE; `if h.fetchFirst`, `if h.indicesChanged`, `h.indicesChanged = false`,
+    `h.fetchFirst = true` are present; `processFetching` returns `false` inside `if err != nil` and `true` otherwise -/
+theorem C16_tie_proposer_retry :
+    Gen.has_prop_HandleDuties = [true, false, true, true, true, true] ∧
+    Gen.has_prop_processFetching = [true, true, true] := by decide
 
 /-- call-site facts: in every ticker branch the fetch-first path fetches then executes and the regular path
     executes BEFORE it re-fetches; `ResetEpoch`/`Reset` calls of the ticker / reorg / indices branches; the
@@ -251,11 +258,27 @@ theorem C16_dispatch_exactly_once_if_fetched_anyorder_refuted : ¬ C16_dispatch_
 example : envOK none 0 C16_witness_tick_after_later_notice = false ∧
     ticksIncreasing none C16_witness_tick_after_later_notice = true := by decide
 
-/-! ### a failed re-fetch that is never retried (proposer handler)
+/-! ### a failed fetch is retried (all three handlers)
 
 `exactlyOnceOK` voids every obligation at a failed fetch, so the theorem above does not speak about what happens AFTER a
 failure.  The attester and sync-committee handlers keep `fetchCurrent…`/`fetchNext…` set until a fetch succeeds and ask
-again at every tick; the proposer handler clears `fetchFirst` BEFORE it fetches. -/
+again at every tick; since fix f167f5eb9 the proposer handler keeps `fetchFirst` set until its fetch succeeds. -/
+
+/-- Proposer handler: a fetch-first tick whose fetch FAILS leaves `fetchFirst` set, and every tick that starts with
+    `fetchFirst` set begins by asking the beacon node for the duties of its epoch — so a failed first fetch is retried at
+    the next tick, for every state, slot and clock. -/
+theorem C16_proposer_failed_first_fetch_is_retried (n : Net) (st : HState) (slot clock : Nat)
+    (hff : st.fetchFirst = true) :
+    (propTick n st slot clock .fail).1.fetchFirst = true ∧
+    ∀ (r1 : FetchRes), ∃ rest, (propTick n st slot clock r1).2 = .fetch (n.epoch slot) (n.epoch slot) r1 :: rest := by
+  obtain ⟨store, ff, fc, fn, ic⟩ := st
+  cases hff
+  constructor
+  · simp only [propTick, propFetch, FetchRes.failed, if_true]
+    unfold propPost
+    split <;> rfl
+  · intro r1
+    cases r1 <;> (simp only [propTick, propFetch, if_true, List.singleton_append]; exact ⟨_, rfl⟩)
 
 /-- witness: proposer duty of slot 45 fetched twice successfully; reorg(current) notice ⇒ `ResetEpoch`, `fetchFirst`; the
     re-fetch at slot 42 fails; the beacon node answers again from slot 43 on -/
@@ -264,12 +287,16 @@ def C16_witness_proposer_no_retry : List Event :=
    .tick 43 43 (.ok [1] [⟨45, 1, 7⟩]) (.ok [1] []), .tick 44 44 (.ok [1] [⟨45, 1, 7⟩]) (.ok [1] []),
    .tick 45 45 (.ok [1] [⟨45, 1, 7⟩]) (.ok [1] [])]
 
-/-- KNOWN FINDING `C16/proposer-refetch-not-retried-after-failure` (reproduced on the real handler): after the single
-    failed re-fetch the proposer handler neither asks the beacon node again nor dispatches the duty of slot 45 -/
-theorem C16_proposer_refetch_not_retried :
-    runFrom .prop ⟨32, 256⟩ (stateAfter .prop ⟨32, 256⟩ (initH .prop ⟨32, 256⟩ 40 (.ok [1] [⟨45, 1, 7⟩])).1
-        (C16_witness_proposer_no_retry.take 3)) (C16_witness_proposer_no_retry.drop 3) =
-      [.execs 43 43 [], .execs 44 44 [], .execs 45 45 []] ∧
+/-- REGRESSION (fix f167f5eb9, finding `C16/proposer-refetch-not-retried-after-failure`): the proposer handler before
+    the fix (`runOld`) never asked again after the failed re-fetch and did not dispatch the duty of slot 45; the fixed
+    handler re-fetches at slot 43 and dispatches it. -/
+theorem C16_regression_proposer_refetch_retried :
+    runOld .prop ⟨32, 256⟩ 40 (.ok [1] [⟨45, 1, 7⟩]) C16_witness_proposer_no_retry =
+      [.fetch 1 1 (.ok [1] [⟨45, 1, 7⟩]), .fetch 1 1 (.ok [1] [⟨45, 1, 7⟩]), .execs 40 40 [], .fetch 1 1 .fail,
+       .execs 42 42 [], .execs 43 43 [], .execs 44 44 [], .execs 45 45 []] ∧
+    run .prop ⟨32, 256⟩ 40 (.ok [1] [⟨45, 1, 7⟩]) C16_witness_proposer_no_retry =
+      [.fetch 1 1 (.ok [1] [⟨45, 1, 7⟩]), .fetch 1 1 (.ok [1] [⟨45, 1, 7⟩]), .execs 40 40 [], .fetch 1 1 .fail,
+       .execs 42 42 [], .fetch 1 1 (.ok [1] [⟨45, 1, 7⟩]), .execs 43 43 [], .execs 44 44 [], .execs 45 45 [⟨45, 1, 7⟩]] ∧
     envOK none 40 C16_witness_proposer_no_retry = true := by decide
 
 /-- non-vacuity of `C16_dispatch_exactly_once_if_fetched`: runs with reorg and indices-change notices (one of them
